@@ -30,6 +30,7 @@ Two streams:
 from __future__ import annotations
 
 import json
+import math
 from fractions import Fraction
 
 import numpy as np
@@ -129,11 +130,19 @@ def oracle_problems(b: str, d: dict, c, user_input: list[int], eps: Fraction, re
             probs.append(f"oracle[{b}]: pattern {s} holds more photons than the {injected} injected")
         if len(s) != c.n_modes:
             probs.append(f"oracle[{b}]: pattern {s} is not on the circuit's {c.n_modes} modes")
+    loss_modes = np.array(c.U_full).shape[0] - c.n_modes
     for s in set(d) | set(ref):
         pi, pr = d.get(s, 0.0), ref.get(s, 0.0)
-        tol = (1e-9 + (nbasis * float(eps) if sum(s) == 0 else 0) + (float(eps) * 1.001 * nbasis if pi == 0 else 0)
-               + relax * max(pi, pr))
-        if abs(pi - pr) > tol:
+        # the code drops every (pattern, loss configuration) term below the truncation threshold `eps`
+        # before it marginalises, so a reported value may fall short of the exact marginal by up to
+        # (number of loss configurations of that pattern) * eps; it may never exceed it (vacuum apart,
+        # which collects the dropped mass)
+        lost = injected - sum(s)
+        k_s = math.comb(lost + loss_modes - 1, loss_modes - 1) if loss_modes > 0 and lost >= 0 else 1
+        deficit = float(eps) * 1.001 * k_s
+        slack = 1e-9 + relax * max(pi, pr)
+        hi = slack + (nbasis * float(eps) if sum(s) == 0 else 0)
+        if not (-(deficit + slack) <= pi - pr <= hi) and not (pi == 0 and pr <= float(eps) * 1.001 * nbasis + slack):
             probs.append(f"oracle[{b}]: P{list(s)} = {pi:.9g} but the sum over loss configurations of |amplitude|^2 is {pr:.9g}")
             break
     return probs
